@@ -61,6 +61,15 @@ def main(argv=None) -> int:
     a = ap.parse_args(argv)
     seed = int(os.environ.get("VERIF_SEED", "0") or 0)
     sys.setrecursionlimit(10000)
+    import signal
+
+    def _timeout(signum, frame):
+        print(f"ANALYSIS-ERROR property={a.prop} rule=- reason=analysis exceeded its time budget")
+        sys.stdout.flush()
+        os._exit(2)
+
+    signal.signal(signal.SIGALRM, _timeout)
+    signal.alarm(int(os.environ.get("CIJSA_TIMEOUT", "900")))
     if a.replay:
         rp = json.loads(open(a.replay).read())
         print(f"replaying {rp['property']} {rp['rule']} [{rp['key']}] recorded at {rp['file']}:{rp['line']}")
